@@ -23,7 +23,8 @@ def gen(rng, kind):
         if r < 0.4:
             return ("scalar", rng.randint(1, 4) / 2)
         if r < 0.8:
-            return ("dict", {k: rng.randint(0, 4) / 2 for k in keys})
+            ks = list(keys); rng.shuffle(ks)          # written in any order: weights go with their key, not their position
+            return ("dict", {k: rng.randint(0, 4) / 2 for k in ks})
         return ("none", None)
     def asym():
         d = dict(prand(rng, nv, 2, 2)); d.update({(2, 0): 1, (0, 1): -3} if nv == 2 else {(1,): 2}); return d
